@@ -36,7 +36,9 @@ C07(ev) == /\ ev.encOK /\ ev.j.t # "invalid"
 \* C08: valid documents decode and re-encode equivalently; single faults are rejected naming the property
 C08(ev) == /\ ev.panic = ""
            /\ IF ev.mut = "none" THEN ev.decOK /\ ev.encOK /\ ev.re.t # "invalid" /\ JEquiv(S(ev.type), ev.doc, ev.re)
-              ELSE ~ev.decOK /\ ev.names
+              \* (a missing or wrongly typed discriminator is refused by its role - "unknown discriminator",
+              \* "cannot unmarshal discriminator" -: the error need not spell the property's name)
+              ELSE ~ev.decOK /\ (ev.names \/ ev.mut \in {"drop-disc", "swap-disc"})
 
 Enc == /\ Is("Enc") /\ Known(Ev.type)
        /\ C06(Ev) /\ C07(Ev)
@@ -50,7 +52,7 @@ Dec == /\ Is("Dec") /\ Known(Ev.type)
 \*   Body {case, type, mut, prop, reached, ok, names, panic}
 BodyEv == /\ Is("Body") /\ Known(Ev.type)
           /\ Ev.panic = "" /\ Ev.reached
-          /\ IF Ev.mut = "none" THEN Ev.ok ELSE (~Ev.ok /\ Ev.names)
+          /\ IF Ev.mut = "none" THEN Ev.ok ELSE (~Ev.ok /\ (Ev.names \/ Ev.mut \in {"drop-disc", "swap-disc"}))
           /\ stats' = [stats EXCEPT !.accepted = @ + 1, !.nontrivial = @ + 1]
           /\ l' = l + 1 /\ UNCHANGED schemas
 Step == SchemaEv \/ Enc \/ Dec \/ BodyEv
